@@ -167,6 +167,12 @@ def recurring_case(draw, brokers):
         case["lat"] = draw(st.lists(st.sampled_from([0.0, 0.001, 0.003]), max_size=20))
     if case["tz"] is None:
         del case["tz"]
+    if draw(st.integers(0, 3)) == 0:
+        # an operator's tool looks into the delayed category while the job recurs: it takes the pending iteration before it is due
+        # and hands it back (reject, or by closing the iteration) - the slot it was scheduled for is still its slot
+        case["inspect"] = [{"at": draw(st.integers(100, 5000)) / 1000, "queue": "q0", "category": "DELAYED", "n": draw(st.integers(1, 2)),
+                            "hold": draw(st.sampled_from([0.01, 0.1, 0.3])), "how": draw(st.sampled_from(["reject", "reject", "close"]))}
+                           for _ in range(draw(st.integers(1, 3)))]
     return gen.finalize(gen.host_dims(draw, case, rename=False))
 
 
